@@ -45,19 +45,23 @@ structure TDefects where
   inMapAnyKey : Bool
   /-- a computed key `(e)` of a map literal may have any type (the VM asserts it to be a string) -/
   mapKeyUnchecked : Bool
+  /-- `visit` has no case for `ConstantNode` (inserted by the optimizer or a Patch visitor): a second
+      check of such a tree panics ("undefined node type") -/
+  constNodePanic : Bool
   deriving DecidableEq, Repr
 
 /-- the pinned snapshot -/
-def TDefects.asWas : TDefects := ⟨true, true, true, true, true, true, true, true, true⟩
+def TDefects.asWas : TDefects := ⟨true, true, true, true, true, true, true, true, true, true⟩
 /-- /repo's current HEAD: after the `fix:` commits 76735a9 (located error first), b6f8e35 (`AsBool` on the
-nil type), 6162013 (numeric-only literal retyping), 106fb38 (closure with a nil-typed body).  The loose
-index rule and the static slice types of `filter`/`map` are pinned by /repo's own tests and remain. -/
-def TDefects.asIs : TDefects := ⟨false, true, false, false, true, false, true, true, true⟩
-def TDefects.repaired : TDefects := ⟨false, false, false, false, false, false, false, false, false⟩
-def TDefects.safeFix : TDefects := TDefects.asIs
-/-- … plus the three further checker patches proposed in /tmp/w/types/c03-fixes-2.patch (slice of a map,
-`in` with a key of the wrong type, computed map-literal key of a non-string type) -/
-def TDefects.safeFix2 : TDefects := ⟨false, true, false, false, true, false, false, false, false⟩
+nil type), 6162013 (numeric-only literal retyping), 106fb38 (closure with a nil-typed body), e2e7046 (`in`
+needs a usable key), 265c5fa (no slicing of maps), a03872c (computed map-literal key must be a string),
+911e74d (ConstantNode).  The loose index rule and the static slice types of `filter`/`map` are pinned by
+/repo's own tests and remain. -/
+def TDefects.asIs : TDefects := ⟨false, true, false, false, true, false, false, false, false, false⟩
+def TDefects.repaired : TDefects := ⟨false, false, false, false, false, false, false, false, false, false⟩
+/-- intermediate flag sets used for self-tests against partially patched copies of the repository -/
+def TDefects.safeFix : TDefects := ⟨false, true, false, false, true, false, true, true, true, true⟩
+def TDefects.safeFix2 : TDefects := ⟨false, true, false, false, true, false, false, false, false, true⟩
 
 inductive Expect where
   | none | bool | int64 | float64
@@ -76,7 +80,7 @@ inductive CheckErrClass where
   | mismatchMatches | noField | badIndex | notIndexable | badSliceIndex | notSliceable
   | unknownFunc | noMethod | noResult | manyResults | tooMany | notEnough | badArgument
   | badLen | notArray | closureNotBool | badClosure | unknownBuiltin | pointerOutside | pointerNotArray
-  | nonBoolCond | expected | badMapKey
+  | nonBoolCond | expected | badMapKey | builtinArity
   deriving DecidableEq, Repr
 
 def CheckErrClass.name : CheckErrClass → String
@@ -91,6 +95,7 @@ def CheckErrClass.name : CheckErrClass → String
   | .closureNotBool => "closure-not-bool" | .badClosure => "bad-closure" | .unknownBuiltin => "unknown-builtin"
   | .pointerOutside => "pointer-outside" | .pointerNotArray => "pointer-not-array"
   | .nonBoolCond => "non-bool-cond" | .expected => "expected" | .badMapKey => "bad-map-key"
+  | .builtinArity => "builtin-arity"
 
 structure CState where
   err : Option (Loc × CheckErrClass) := none
@@ -442,6 +447,29 @@ def condType (t1 t2 : OTy) : OTy :=
 
 def closureType (bt : Ty) : OTy := some (.func [interfaceType] false [bt])
 
+/-- `reflect.TypeOf(n.Value)` for the value of a `ConstantNode`, as far as the value universe tells -/
+def typeOfVal : Val → OTy
+  | .nil => none
+  | .bool _ => boolTy
+  | .int k _ => some (.num k)
+  | .f64 _ => floatTy
+  | .f32 _ => some (.num .float32)
+  | .str _ => stringTy
+  | .arr et _ =>
+    some (.slice (match et with
+      | .iface => interfaceType | .num k => .num k | .str => .string | .bool => .bool
+      | .other n => .ref n))
+  | .map _ => mapTy
+  | .set et _ =>
+    some (.map (match et with
+      | .iface => interfaceType | .num k => .num k | .str => .string | .bool => .bool
+      | .other n => .ref n) (.struct []))
+  | .struct n isPtr _ => some (if isPtr then .ptr (.ref n) else .ref n)
+  | .fn id => some (.other ("func:" ++ id))
+  | .regexp _ => some (.ptr (.ref "regexp.Regexp"))
+  | .call _ _ => some (.ref "vm.Call")
+  | .opaque d => some (.other d)
+
 /-! ### the visitor -/
 
 mutual
@@ -457,8 +485,10 @@ def visit (cfg : CheckCfg) : Node → CState → Node × OTy × CState
   | .bool m b, st => (setKd (.bool m b) boolTy, boolTy, st)
   | .str m s, st => (setKd (.str m s) stringTy, stringTy, st)
   | .const m v, st =>
-    -- no case for ConstantNode in `visit`: panic("undefined node type")
-    (.const m v, none, st.setPanic "undefined node type (*ast.ConstantNode)")
+    if cfg.dt.constNodePanic then
+      -- no case for ConstantNode in `visit`: panic("undefined node type")
+      (.const m v, none, st.setPanic "undefined node type (*ast.ConstantNode)")
+    else (setKd (.const m v) (typeOfVal v), typeOfVal v, st)
   | .unary m op x, st =>
     let (x', t, st) := visit cfg x st
     let (r, st) := orFail (unaryRule op t) m.loc st
@@ -526,6 +556,7 @@ def visit (cfg : CheckCfg) : Node → CState → Node × OTy × CState
       let (r, st) := orFail (if !cfg.strict then .ok (defaultOr cfg) else .error .unknownFunc) m.loc st
       (setKd (.func m name args fast) r, r, st)
   | .builtin m name args, st =>
+    -- first the argument count: `len` takes one argument, the other builtins two
     match args with
     | [a] =>
       if name == "len" then
@@ -533,7 +564,7 @@ def visit (cfg : CheckCfg) : Node → CState → Node × OTy × CState
         let (r, st) := orFail (lenRule pt) m.loc st
         (setKd (.builtin m name [a']) r, r, st)
       else
-        let st := st.fail m.loc .unknownBuiltin
+        let st := st.fail m.loc .builtinArity
         (setKd (.builtin m name args) ifaceTy, ifaceTy, st)
     | [a, c] =>
       if isCollBuiltin name then
@@ -548,10 +579,10 @@ def visit (cfg : CheckCfg) : Node → CState → Node × OTy × CState
           let (r, st) := orFail (collBuiltinRule cfg.dt name coll closure) c'.loc st
           (setKd (.builtin m name [a', c']) r, r, st)
       else
-        let st := st.fail m.loc .unknownBuiltin
+        let st := st.fail m.loc (if name == "len" then .builtinArity else .unknownBuiltin)
         (setKd (.builtin m name args) ifaceTy, ifaceTy, st)
     | _ =>
-      let st := st.fail m.loc .unknownBuiltin
+      let st := st.fail m.loc .builtinArity
       (setKd (.builtin m name args) ifaceTy, ifaceTy, st)
   | .closure m x, st =>
     let (x', t, st) := visit cfg x st
